@@ -368,9 +368,46 @@ def closed_loop_boundary(ctx):
             ctx.probe("closed_loop_rerelease")
 
 
+def _closed_loop_deadlines(ctx, g):
+    """every invocation of a closed-loop job graph -- also the ones created during the run, when an earlier
+    one finished or was cancelled -- has deadline = release + critical-path/SLO time stretched within the
+    declared variance and bounds (same reference as the loader check, dst/cli19.py)"""
+    from . import cli19
+
+    w = ctx.world
+    fl = w["flags"]
+    if fl.get("decompose_deadlines") or fl.get("use_branch_predicated_deadlines") or w.get("mixed_units"):
+        return
+    try:
+        bases, dv, lo_b, hi_b, zero_w = cli19.deadline_ranges(w, g, {}, True)
+    except Exception:
+        return
+    if zero_w:
+        return  # KF-C19-zero-weight-critical-path territory: decided by the loader check, not here
+    initial = min(g["release"]["concurrency"], g["release"]["invocations"])
+    for name, tg in sorted(ctx.built.workload.task_graphs.items()):
+        if name.split("@")[0] != g["name"]:
+            continue
+        try:
+            idx = int(name.split("@")[1])
+        except Exception:
+            continue
+        rt = _us(tg.release_time)
+        dls = {_us(t.deadline) for t in tg.get_nodes()}
+        ctx.probe("c19_run_deadline_checked")
+        if not cli19.deadline_in_range(rt, dls, bases, dv, lo_b, hi_b):
+            ctx.violate("C19", "closed_loop_deadline_out_of_range",
+                        f"{name}: release {rt}, deadlines {sorted(dls)}, critical-path/SLO base {bases}, variance "
+                        f"{dv}, bounds {[lo_b, hi_b]}", {"created_during_run": idx >= initial})
+            return
+
+
 def post_c19_closed_loop(ctx):
     """a run that reached its natural end (before the loop timeout) has released all N invocations of every
     closed-loop job graph: each invocation that finishes *or is cancelled* hands its slot to the next one"""
+    for g in ctx.world["graphs"]:
+        if g["release"]["type"] == "closed_loop":
+            _closed_loop_deadlines(ctx, g)
     end_t = ctx.end_time
     if end_t is None or end_t >= ctx.world["sim"]["loop_timeout"]:
         return
@@ -674,6 +711,9 @@ def post_c07(ctx, parsed, res, safety_only=False):
     resolve = ctx.world["flags"].get("resolve_conditionals_at_submission")
     end_t = ctx.end_time
     cut = end_t is not None and end_t >= ctx.world["sim"]["loop_timeout"]
+    pol_ = ctx.world["policy"]
+    natural_end = (end_t is not None and not cut and pol_["name"] in ("EDF", "FIFO", "LSF")
+                   and not pol_.get("enforce_deadlines") and not ctx.world["flags"].get("drop_skipped_tasks"))
     for (graph, cnode), ch in ctx.cond_choices.items():
         base = graph.split("@")[0]
         kids = ctx.children[base][cnode]
@@ -735,6 +775,15 @@ def post_c07(ctx, parsed, res, safety_only=False):
                     ctx.violate("C07", "untaken_branch_task_not_cancelled",
                                 f"{s.uname} on the branch not taken by {cnode} ended in state {s.state}",
                                 {"state": s.state, "forked_branch": _branch_forks(ctx, base, k, term)})
+        # liveness of the taken branch: in a run of a work-conserving policy that reached its natural end, with no
+        # cancellation decided by the policy in this graph, the chosen child has run (if it fits the cluster at all)
+        if not safety_only and natural_end and not _cancelled_by_policy(ctx, graph):
+            tk = ctx.by_key.get((graph, taken))
+            if tk is not None and tk.starts == 0 and tk.state not in ("CANCELLED", "COMPLETED") \
+                    and feasible_task(ctx, tk):
+                ctx.violate("C07", "taken_branch_never_ran",
+                            f"conditional {cnode}@{graph} chose {taken}, which ended in state {tk.state} although "
+                            f"the run ended at {end_t}, before its timeout", {"state": tk.state})
         # the join and everything after it run once the taken branch completes
         if term is not None:
             ts = ctx.by_key.get((graph, term))
